@@ -139,7 +139,7 @@ def run(ctx, anchors=None):
                  "std::ios_base::failure from the transaction decoder cannot leave main of %s" % mfile,
                  "a truncated / malformed transaction (std::ios_base::failure) escapes main of %s: %s" % (mfile, " -> ".join(exc.chain(m, "std::ios_base::failure")[:6])))
     nthrow = len([n for n in r.nodes() if n["k"] == "throw"])
-    ctx.floor("R13.3", nthrow, 2, "explicit rejections in UnserializeTransaction")
+    ctx.extra["explicit_rejections_in_UnserializeTransaction"] = nthrow
     ptx = fb.fn("parse_tx", file="instance.cpp")
     pcfg = ptx.cfg()
     un = [n for n in ptx.nodes() if n["k"] == "call" and n.get("n") == "UnserializeTransaction"]
